@@ -13,7 +13,8 @@
 
 using namespace vt;
 
-enum poison { none = 0, f_nan, f_pinf, f_ninf, proj_nan, proj_inf, w_inf };
+// d_nan: the map reports a NaN density for one channel (the weight is NaN; the other channel's density stays finite)
+enum poison { none = 0, f_nan, f_pinf, f_ninf, proj_nan, proj_inf, w_inf, d_nan };
 
 struct plan
 {
@@ -37,7 +38,7 @@ template <typename T> static T poisoned_value(plan& p, T clean, bool can_winf)
         if (p.lane_z) r = T();
         else { r = k == f_nan ? std::numeric_limits<T>::quiet_NaN() : (k == f_pinf ? inf : -inf); ++p.poisoned; }
     }
-    else if (k == w_inf && can_winf)
+    else if ((k == w_inf || k == d_nan) && can_winf)
     {
         if (p.lane_z) r = T();
         else ++p.poisoned; // finite non-zero value times an infinite weight
@@ -49,8 +50,12 @@ template <typename T> static void fill(plan& p, hep::projector<T>& pr, T x, T cl
 {
     int k = p.at();
     T v = clean;
-    if (k == proj_nan) v = p.lane_z ? T() : std::numeric_limits<T>::quiet_NaN();
-    if (k == proj_inf) v = p.lane_z ? T() : -std::numeric_limits<T>::infinity();
+    if (k == proj_nan) v = std::numeric_limits<T>::quiet_NaN();
+    if (k == proj_inf) v = -std::numeric_limits<T>::infinity();
+    // lane Z: the poisoned value is not handed over at all.  (Handing over an exact zero instead is not the same thing bit for bit: adding
+    // zero to a compensated sum folds a pending compensation of half an ulp into it one step earlier - seen once, VERIF_SEED=4 - although
+    // nothing is contributed either way.)
+    if (p.lane_z && (k == proj_nan || k == proj_inf)) return;
     pr.add(0, x, v);
     pr.add(1, x, T(1) - x, v);
 }
@@ -154,6 +159,7 @@ template <typename T> static std::vector<lane_rec<T>> run_lane(int kind, plan p,
                 bool zero = p.cur == w_inf;
                 de[0] = zero ? T() : T(1);
                 de[1] = zero ? T() : (x > T() ? T(0.5) / std::sqrt(x) : T(1e6));
+                if (p.cur == d_nan) de[1] = std::numeric_limits<T>::quiet_NaN();
             }
             return T(1);
         };
@@ -205,8 +211,9 @@ template <typename T> static void run_pair(int run, int kind, rng& g, bool dists
     for (std::size_t i = 0; i != len; ++i)
     {
         int k = none;
-        if (g.below((unsigned) density) == 0) k = 1 + (int) g.below(6);
+        if (g.below((unsigned) density) == 0) k = 1 + (int) g.below(7);
         if (k == w_inf && kind != 2) k = f_ninf;
+        if (k == d_nan && kind != 2) k = f_nan;
         if ((k == proj_nan || k == proj_inf) && !dists) k = f_pinf;
         p.kind.push_back(k);
     }
